@@ -290,6 +290,12 @@ func checkParagraphInvariant(b []byte, r *Recorder) error {
 			}
 		}
 	}
+	// whatever that input was, the next document is read as what it says
+	canary := "Package: canary\nDescription: short\n long one\n .\n  indented\n\nSecond: 2\n"
+	if ps, err := readParas(canary); err != nil || len(ps) != 2 || strings.Join(ps[0].Order, ",") != "Package,Description" || ps[0].Values["Package"] != "canary" ||
+		ps[0].Values["Description"] != "short\nlong one\n\n indented\n" || ps[1].Values["Second"] != "2" {
+		return errf("after input %q a plain two-paragraph document reads as %+v (err %v)", b, ps, err)
+	}
 	return nil
 }
 
@@ -338,7 +344,7 @@ func genRawDoc(t *rapid.T) RawDoc {
 
 var specC07Invariant = Register(&Spec[RawDoc]{
 	Prop: "C07", Name: "invariant",
-	Rule: "any input: valid documents, line-level mutations of them (duplicate a field line, delete a line so a continuation is orphaned, swap lines, continuation at the top or right after a blank line), byte-level mutations, token soups. Oracle: every paragraph returned by Next() - also those returned before a later error - has set(keys(Values)) == set(Order) and no duplicate in Order; All() agrees with the Next() loop on the count. Non-trivial: input yields >= 1 paragraph; distinct by bytes.",
+	Rule: "any input: valid documents, line-level mutations of them (duplicate a field line, delete a line so a continuation is orphaned, swap lines, continuation at the top or right after a blank line), byte-level mutations, token soups. Oracle: every paragraph returned by Next() - also those returned before a later error - has set(keys(Values)) == set(Order) and no duplicate in Order; All() agrees with the Next() loop on the count; a fixed plain document read right afterwards comes out as written. Non-trivial: input yields >= 1 paragraph; distinct by bytes.",
 	Check: func(c RawDoc, r *Recorder) error { return checkParagraphInvariant(c.B, r) },
 })
 
